@@ -10,6 +10,7 @@ import (
 	"sort"
 	"strings"
 	"sync"
+	"sync/atomic"
 	"time"
 
 	"verif/harness"
@@ -264,11 +265,14 @@ func judge(c *harness.Ctx, id string, st strategy, bs []nb, th int, nodes []*fno
 	}
 }
 
+var judged, stalledCalls atomic.Int64
+
 func run(c *harness.Ctx) {
+	harness.StartStallMonitor()
 	sts := strategies()
 	n := c.N(4200, 60000)
 	var wg sync.WaitGroup
-	sem := make(chan struct{}, 160)
+	sem := make(chan struct{}, 48)
 	for i := 0; i < n; i++ {
 		st := sts[i%len(sts)]
 		id := fmt.Sprintf("%s#%d", st.Name, i)
@@ -310,6 +314,13 @@ func run(c *harness.Ctx) {
 					return
 				}
 				took := time.Since(start)
+				judged.Add(1)
+				if harness.MaxStallSince(start) > 60*time.Millisecond {
+					// the process was starved of CPU while the call ran: measured times say nothing about the strategy
+					stalledCalls.Add(1)
+					c.Count("calls_not_judged_process_stalled", 1)
+					return
+				}
 				judge(c, id, st, bs, th, nodes, rs.got, rs.err, took)
 				var ks []string
 				for _, b := range bs {
@@ -331,6 +342,9 @@ func run(c *harness.Ctx) {
 		})
 	}
 	wg.Wait()
+	if j, st := judged.Load(), stalledCalls.Load(); j > 0 && st*3 > j {
+		c.Inconclusive(fmt.Sprintf("the process was starved of CPU during %d of %d calls: they were not judged", st, j))
+	}
 }
 
 func main() {
